@@ -112,12 +112,35 @@ func (w *World) snapshotWithHeadTail(head, tail int) (file []byte, stateLen int,
 				prev = d0
 			}
 		case "s.close":
-			for i := 0; i < tail; i++ {
+			var directed []func()
+			if head > 0 && headErr == nil {
+				// ... followed by one with markers of its own that Restore must REPLAY: the row the
+				// skipped commit inserted is deleted again (the world's generator does not know it)
+				directed = append(directed, func() { w.coll.DeleteAt(headRow) })
+				// ... and by a length-changing merge on a row beyond the first block (the rewritten
+				// operation the recorder receives must belong to that row's block)
+				var high uint32
+				for off := range w.prev {
+					if off >= 16384 && off > high {
+						high = off
+					}
+				}
+				for ci := range w.cols {
+					if col := w.cols[ci]; high > 0 && (col.K == KStrCat || col.K == KRecCat) {
+						directed = append(directed, func() {
+							w.coll.QueryAt(high, func(r column.Row) error {
+								col.Merge(r, Val{W: -1, B: []byte("+tail")})
+								return nil
+							})
+						})
+						break
+					}
+				}
+			}
+			for i := 0; i < len(directed)+tail; i++ {
 				before := len(w.logger.commits)
-				if head > 0 && headErr == nil && i == 0 {
-					// ... followed by one with markers of its own that Restore must REPLAY: the row the
-					// skipped commit inserted is deleted again (the world's generator does not know it)
-					w.coll.DeleteAt(headRow)
+				if i < len(directed) {
+					directed[i]()
 				} else {
 					w.runTxn() // observe() drains the logger; collect the blocks from the stats instead
 				}
@@ -249,7 +272,14 @@ func cmdTrunc(args []string) {
 	s := persistSummary{Engine: "trunc", Exhaustive: *every, Extra: map[string]int{}}
 	stats := newStats()
 	for i := 0; i < *n; i++ {
-		w := newWorld(*seed, i, persistProfile, stats, false)
+		prof := persistProfile
+		if i%2 == 1 {
+			prof.SeedPct = 100 // the directed files span several blocks
+		}
+		w := newWorld(*seed, i, prof, stats, false)
+		if i%2 == 1 {
+			w.addColumnNamed(KStrCat, "zcat")
+		}
 		for t := 0; t < 4+w.rng.Intn(5); t++ {
 			w.runTxn()
 		}
@@ -1005,6 +1035,28 @@ func cmdFault(args []string) {
 				s.Clean++
 			}
 		}
+		// a Snapshot refused because another one is in progress (here: attempted from inside the first
+		// one, right after its recorder was installed) fails and leaves nothing behind either
+		inProbe := false
+		column.VerifHook.Store(func(point string, chunk uint32) {
+			if point == "s.open" && !inProbe {
+				inProbe = true
+				for k := 0; k < 12; k++ {
+					var sink bytes.Buffer
+					if err := w.coll.Snapshot(&sink); err == nil {
+						s.Failures = append(s.Failures, fmt.Sprintf("seed %d collection %d: a Snapshot started while another one was in progress succeeded", *seed, i))
+					}
+					s.Extra["refused_snapshots"]++
+				}
+			}
+		})
+		{
+			var sink bytes.Buffer
+			if err := w.coll.Snapshot(&sink); err != nil {
+				s.Failures = append(s.Failures, fmt.Sprintf("seed %d collection %d: a healthy snapshot failed after refusing concurrent ones: %v", *seed, i, err))
+			}
+		}
+		removeHook()
 		// leaks: descriptors and temporary files, after the collector had its chance
 		for r := 0; r < 60; r++ {
 			var sink bytes.Buffer
